@@ -351,10 +351,8 @@ fn div(left: Value, right: Value) -> Result<Value> {
 fn rem(left: Value, right: Value) -> Result<Value> {
     match (left, right) {
         (Value::Int(_), Value::Int(0)) => Err(Error::DivisionByZero),
-        (Value::Int(left), Value::Int(right)) => left
-            .checked_rem(right)
-            .map(Value::Int)
-            .ok_or_else(|| Error::value_out_of_bounds(Value::Int(left), "rem")),
+        // i128::MIN % -1 overflows checked_rem although the remainder is 0
+        (Value::Int(left), Value::Int(right)) => Ok(Value::Int(left.wrapping_rem(right))),
         (Value::Float(left), Value::Float(right)) => Ok(Value::Float(left % right)),
         (Value::Decimal(_), Value::Decimal(right)) if right.is_zero() => {
             Err(Error::DivisionByZero)
